@@ -1263,8 +1263,43 @@ class Inliner(object):
                 y._outer_self = has_self  # pylint: disable=protected-access
                 self.process_function(
                     y, st.name, '%s.%s.%s' % (st.name, x.name, y.name))
+    self.process_module_level()
     self.drop_dead_helpers()
     return self.tree
+
+  def process_module_level(self):
+    """Constant definitions at module / class level that call a private
+    one-expression helper of the module (`X = _dotted(A, 'b')`): the helper's
+    expression is substituted (the helper must be defined above, which Python
+    itself requires)."""
+    holders = [self.tree] + [c for c in self.tree.body
+                             if isinstance(c, ast.ClassDef)]
+    for h in holders:
+      for st in h.body:
+        if not isinstance(st, ast.Assign):
+          continue
+        for call in [n for n in ast.walk(st.value)
+                     if isinstance(n, ast.Call)]:
+          if not (isinstance(call.func, ast.Name) and
+                  call.func.id in self.module_funcs):
+            continue
+          fn = self.module_funcs[call.func.id]
+          if not self.inlinable(fn, fn.name):
+            continue
+          try:
+            pre, e = self.expand(call, fn, 'function', None, set(),
+                                 'expr-only')
+          except NotInlinable:
+            continue
+          if pre or e is None:
+            continue
+          if st.value is call:
+            st.value = e
+          else:
+            _replace_expr(st, call, e)
+          self.inlined_calls[id(fn)] = self.inlined_calls.get(id(fn), 0) + 1
+          self.log.append('%s: %s inlined into a module-level definition' % (
+              self.relpath, fn.name))
 
   def drop_dead_helpers(self):
     """Private helpers that were inlined everywhere and are referenced
